@@ -62,6 +62,18 @@ pub fn check(case: &C07Case) -> CaseOutcome
                 }
             }
             plans.push((format!("kill:{}", k_total + 1), k_total + 1, "kill"));
+            // fault pairs: a failed rename followed by a kill at each of the next operations
+            // (catches "fall back to copying in place when the rename fails")
+            for t in ops.iter().filter(|t| t.kind == "rename")
+            {
+                for e in ["EXDEV", "EACCES"]
+                {
+                    for j in 1..=14u64
+                    {
+                        plans.push((format!("fail:{}:{};kill:{}", t.k, e, t.k + j), t.k, "rename-fail-then-kill"));
+                    }
+                }
+            }
         },
     }
     let big = files.iter().any(|f| f.1.len() > 32 * 1024);
@@ -129,6 +141,47 @@ pub fn check(case: &C07Case) -> CaseOutcome
             o.extra_nontrivial.push(hash_of(&(&case.tree, plan)));
         }
     }
+    // the same kill enumeration with TMPDIR on another filesystem (every rename really fails with EXDEV)
+    if case.only_plan.is_none() && o.deviations.is_empty() && files.iter().map(|f| f.1.len()).sum::<usize>() < 64 * 1024
+    {
+        let base = crate::sandbox::build_dir().join("work");
+        let _ = std::fs::create_dir_all(&base);
+        let work0 = crate::sandbox::Sandbox::new_in(&base);
+        let r0 = fault_run(&tree, false, None, Some(work0.root.clone()));
+        o.evals += 1;
+        let k0 = r0.run.counted_ops();
+        for k in 1..=k0 + 1
+        {
+            let work = crate::sandbox::Sandbox::new_in(&base);
+            let fr = fault_run(&tree, false, Some(format!("kill:{}", k)), Some(work.root.clone()));
+            o.evals += 1;
+            o.class("plan-kill-with-cross-filesystem-tmpdir");
+            for (rel, orig) in &files
+            {
+                let st = file_state(orig, fr.after.get(rel), &ref_off[rel]);
+                let bad = match &st
+                {
+                    FileState::Corrupt(m) => Some(m.clone()),
+                    FileState::Missing => Some("the file no longer exists".to_string()),
+                    _ => None,
+                };
+                if let Some(m) = bad
+                {
+                    if seen_sigs.insert("source-file-corrupt-after-kill-cross-fs".to_string())
+                    {
+                        o.fail(
+                            "source-file-corrupt-after-kill-cross-fs",
+                            format!("TMPDIR on another filesystem, kill before op {}: {}: {}", k, rel, m),
+                        );
+                    }
+                }
+            }
+            if !o.deviations.is_empty()
+            {
+                break;
+            }
+        }
+    }
     o.nontrivial = missing > 0;
     let _ = dev;
     o.sample = Some(json!({
@@ -156,7 +209,7 @@ pub fn run(env: &Env, rec: &Recorder) -> (String, Vec<&'static str>)
     );
     rec.set_exhaustive(true);
     (
-        "trees of 1-4 source files (tens of bytes to ~1 MiB, insertions near start / middle / end, with and without final newline, both styles, lock on); inside each case a recording run gives the K counted operations (open/read/write/close/rename/unlink/stat/opendir on project and TMPDIR paths) and the complete update; then for EVERY k: SIGKILL before op k (and after the last op), and op k failed with every errno applicable to its kind (EIO/ENOSPC/EXDEV/EACCES/EMFILE, short write) - each on a fresh copy. Oracle: every source file is byte-identical to the original or a complete update (insertion-only with exactly the reference run's offsets); every other project entry unchanged (lock exempt). exhaustive=true means: all operation boundaries of each generated tree. Non-trivial = distinct (tree, plan) whose fault hits after the first scratch-file open and not after the last op".to_string(),
+        "trees of 1-4 source files (tens of bytes to ~1 MiB, insertions near start / middle / end, with and without final newline, both styles, lock on); inside each case a recording run gives the K counted operations (open/read/write/close/rename/unlink/stat/opendir on project and TMPDIR paths) and the complete update; then for EVERY k: SIGKILL before op k (and after the last op), op k failed with every errno applicable to its kind (EIO/ENOSPC/EXDEV/EACCES/EMFILE, short write), every rename failed (EXDEV/EACCES) followed by a SIGKILL before each of the next 14 operations, and (trees < 64 KiB) SIGKILL before every operation with TMPDIR really on another filesystem - each on a fresh copy. Oracle: every source file is byte-identical to the original or a complete update (insertion-only with exactly the reference run's offsets); every other project entry unchanged (lock exempt). exhaustive=true means: all operation boundaries of each generated tree. Non-trivial = distinct (tree, plan) whose fault hits after the first scratch-file open and not after the last op".to_string(),
         vec![
             "faults are injected at libc call boundaries of the dynamically linked executable (LD_PRELOAD); a kill or failure inside a system call is not enumerated",
             "power-loss semantics (unsynced data) are not part of the statement: no fsync is demanded",
